@@ -205,6 +205,7 @@ func rulesC01(c *Ctx) {
 				"swap op returns success only after the spent-table insert of "+inputs+" succeeded", why)
 		}
 		c.ruleSigsAfterSpent("R3")
+		c.ruleKeysCompareExactly("R6")
 	}
 
 	// R4: melt
@@ -605,4 +606,15 @@ func (c *Ctx) ruleSigsAfterSpent(rule string) {
 		R.Check(rule, c.P.FuncKey(swap), siteDesc(c, s)+" <= MARK_SPENT(inputs)", c.P.InstrPos(s.Instr), ok,
 			"swap op stores the output signatures only after the spent-table insert of "+inputs+" succeeded (a swap refused by the unique key leaves no restorable signatures)", why)
 	}
+}
+
+// ruleKeysCompareExactly: the duplicate / already-signed / already-spent pre-checks of the operations compare the
+// key strings byte for byte; a unique index that compares under a collation or over an expression refuses a row the
+// pre-checks let through - after the operation has already written something else.
+func (c *Ctx) ruleKeysCompareExactly(rule string) {
+	if c.V.Schema == nil {
+		return
+	}
+	c.R.Check(rule, "schema", "unique keys compare byte for byte", "migrations", len(c.V.Schema.OddKeys) == 0,
+		"no unique index of the schema compares under a collation, over an expression or on part of the rows", strings.Join(c.V.Schema.OddKeys, " ; "))
 }
